@@ -47,7 +47,13 @@ enum Init {
 enum Op {
     Insert { dtor: Dtor, own: Vec<u16> },
     InsertWith { init: Init },
-    Release { obj: u16 },
+    /// `shared` = 0: drop the unique handle; n > 0: convert it with `into_shared()`, make n-1 more
+    /// clones and drop them all (the last drop removes the object through the shared-handle path)
+    Release {
+        obj: u16,
+        #[serde(default)]
+        shared: u8,
+    },
     /// with_iter closure: None = count everything, Some(k) = panic at item k, usize::MAX-ish = re-enter
     Iterate { panic_at: Option<u8>, reenter: bool },
     Reserve { n: u8 },
@@ -73,7 +79,7 @@ fn case_strategy(reentrant_allowed: bool) -> impl Strategy<Value = Case> {
     let op = prop_oneof![
         8 => (dtor, prop::collection::vec(any::<u16>(), 0..3)).prop_map(|(dtor, own)| Op::Insert { dtor, own }),
         3 => init.prop_map(|init| Op::InsertWith { init }),
-        8 => any::<u16>().prop_map(|obj| Op::Release { obj }),
+        8 => (any::<u16>(), prop_oneof![5 => Just(0u8), 3 => Just(1u8), 2 => 2u8..=3]).prop_map(|(obj, shared)| Op::Release { obj, shared }),
         2 => (prop::option::weighted(0.6, 0u8..6), prop::bool::weighted(0.2)).prop_map(|(panic_at, reenter)| Op::Iterate { panic_at, reenter }),
         1 => (0u8..6).prop_map(|n| Op::Reserve { n }),
         1 => Just(Op::Shrink),
@@ -168,6 +174,8 @@ trait Pool4: Sized + 'static {
     fn insert(&mut self, v: S<Self::H>) -> Self::H;
     fn insert_with(&mut self, id: u32, init: Init) -> Self::H;
     fn release(&mut self, h: Self::H);
+    /// removal through the shared-handle form: `into_shared()`, `clones - 1` further clones, all dropped
+    fn release_shared(&mut self, h: Self::H, clones: u8);
     fn len(&self) -> usize;
     fn is_empty(&self) -> bool;
     fn capacity(&self) -> usize;
@@ -236,6 +244,12 @@ macro_rules! managed_pool4 {
             }
             fn release(&mut self, h: Self::H) {
                 drop(h);
+            }
+            fn release_shared(&mut self, h: Self::H, clones: u8) {
+                let first = h.into_shared();
+                let more: Vec<_> = (1..clones).map(|_| first.clone()).collect();
+                drop(first);
+                drop(more);
             }
             fn len(&self) -> usize {
                 self.0.len()
@@ -323,6 +337,15 @@ macro_rules! raw_pool4 {
             fn release(&mut self, h: Self::H) {
                 // SAFETY: the handle belongs to this pool and the object is live (model).
                 unsafe { self.0.remove(h) }
+            }
+            fn release_shared(&mut self, h: Self::H, clones: u8) {
+                let first = h.into_shared();
+                #[expect(clippy::clone_on_copy, reason = "the clone is the point")]
+                let more: Vec<_> = (1..clones).map(|_| first.clone()).collect();
+                let last = more.last().copied().unwrap_or(first);
+                // SAFETY: the handle belongs to this pool and the object is live (model); shared raw
+                // handles are plain copies, the object is removed once through one of them.
+                unsafe { self.0.remove(last) }
             }
             fn len(&self) -> usize {
                 self.0.len()
@@ -502,7 +525,7 @@ fn run<P: Pool4>(case: &Case) -> WorkerReply {
                     }
                 }
             }
-            Op::Release { obj } => {
+            Op::Release { obj, shared } => {
                 if top.is_empty() {
                     continue;
                 }
@@ -521,7 +544,11 @@ fn run<P: Pool4>(case: &Case) -> WorkerReply {
                 let panicker = tree.iter().copied().find(|id| all.get(id).is_some_and(|(d, _)| *d == Dtor::Panic));
                 let inserts = tree.iter().filter(|id| all.get(id).is_some_and(|(d, _)| *d == Dtor::Insert)).count();
                 let _ = (o.dtor, &o.owned);
-                let r = std::panic::catch_unwind(std::panic::AssertUnwindSafe(|| pool.release(h)));
+                let shared = *shared;
+                if shared > 0 {
+                    rep.classes.push(format!("release-via-shared-handle:{}", if shared > 1 { ">=2-clones" } else { "1" }));
+                }
+                let r = std::panic::catch_unwind(std::panic::AssertUnwindSafe(|| if shared > 0 { pool.release_shared(h, shared) } else { pool.release(h) }));
                 extra_live += inserts;
                 if tree.len() > 1 {
                     rep.classes.push("released-object-graph".into());
@@ -820,8 +847,8 @@ fn main() {
     if known_reentrant {
         let probe = |k: u8, cb: &str| -> Case {
             let ops = match cb {
-                "dtor" => vec![Op::Insert { dtor: Dtor::Plain, own: vec![] }, Op::Insert { dtor: Dtor::Plain, own: vec![0] }, Op::Release { obj: 0 }],
-                "dtor-query" => vec![Op::Insert { dtor: Dtor::Query, own: vec![] }, Op::Release { obj: 0 }],
+                "dtor" => vec![Op::Insert { dtor: Dtor::Plain, own: vec![] }, Op::Insert { dtor: Dtor::Plain, own: vec![0] }, Op::Release { obj: 0, shared: 0 }],
+                "dtor-query" => vec![Op::Insert { dtor: Dtor::Query, own: vec![] }, Op::Release { obj: 0, shared: 0 }],
                 "init-closure" => vec![Op::InsertWith { init: Init::Query }],
                 _ => vec![Op::Insert { dtor: Dtor::Plain, own: vec![] }, Op::Iterate { panic_at: None, reenter: true }],
             };
